@@ -26,7 +26,7 @@ def anchors():
 
 def cases(seed, tier):
     q = tier == "quick"
-    return [{"seed": [seed, 18, i], "count": 2} for i in range(56 if q else 800)]
+    return [{"seed": [seed, 18, i], "count": 2} for i in range(84 if q else 800)]
 
 
 _MON = None
